@@ -115,6 +115,11 @@ def pixel_oracle(ctx):
             body = "fill %s solid ffffffff 3 %d 1" % (ptoks, FB(1.0))
         scenes.append("scene %d %d %d I %s ; xf %s ; %s" % (i, W, H, " ".join(["00000000"] * (W * H)), scene.xf_tokens(xf), body))
         meta.append((ops, rule, xf, i % 3 == 2))
+    eval_scenes(ctx, scenes, meta)
+
+
+def eval_scenes(ctx, scenes, meta, what="px"):
+    """run the scenes on the crate and evaluate the statement in f64 on its output; records the first violation"""
     impl, died = build.run_sharded(build.RQV, scenes)
     checked = 0
     for line, sline, m in zip(impl, scenes, meta):
@@ -158,15 +163,76 @@ def pixel_oracle(ctx):
                 if a != (255 if ins else 0):
                     if isclip and ins:
                         continue
-                    ctx.violation("px-%s" % sline.split()[1], sline,
+                    ctx.violation("%s-%s" % (what, sline.split()[1]), sline,
                                   "pixel (%d,%d) is %.2f px from the outline and %s the exact shape (winding %d) but has alpha %d"
                                   % (x, y, d, "inside" if ins else "outside", wn, a))
-                    return
+                    return True
     ctx.cov["pixels_checked_against_exact_shape"] = checked
 
 
 def concrete(sr, i, k, c, op):
     return None
+
+
+def search(ctx, sr, mism):
+    """The correspondence broke but no generated scene violates the statement by itself: magnify and shift the scenes on
+    which model and crate differ most (same path, transform followed by a zoom and a translation, surface enlarged
+    accordingly) - an error in the curve
+    machinery grows with the size of the curve while the statement's margin stays one pixel - and evaluate the
+    statement on the crate's output for those."""
+    scenes, meta, scenes_of = [], [], []
+    def weight(t):
+        # how different the two pictures are: total alpha difference at the first differing op
+        i, k = t
+        try:
+            a = sr.impl[i][k].parse()["surface"]; b = sr.model[i][k].parse()["surface"]
+            return -sum(abs((int(x, 16) >> 24) - (int(y, 16) >> 24)) for x, y in zip(a, b))
+        except Exception:
+            return 0
+    cand = sorted(mism, key=weight)[:14]
+    for i, k in cand:
+        hdr, ops = scene.split_ops(sr.aug[i])
+        if k >= len(ops) or not ops[k].startswith("fill "):
+            continue
+        t = ops[k].split()
+        rule, nops = int(t[2]), int(t[3])
+        # path tokens without the augmentation ("K n" quads stay: they are recomputed by the harness)
+        j, pops = 4, []
+        for _ in range(nops):
+            nn = {"M": 2, "L": 2, "Q": 4, "C": 6, "Z": 0}[t[j]]
+            tok = [t[j]] + t[j + 1:j + 1 + nn]
+            j += 1 + nn
+            if tok[0] == "C":
+                nq = int(t[j + 1]) if t[j] == "K" else 0
+                j += 2 + 6 * nq if t[j] == "K" else 0
+                tok += ["K", "0"]
+            pops.append(" ".join(tok))
+        xf = scene.IDENT
+        for o in ops[:k]:
+            if o.startswith("xf "):
+                xf = tuple(bits_f32(int(v)) for v in o.split()[1:7])
+        if xf[0] * xf[3] - xf[1] * xf[2] == 0:
+            continue
+        W, H = int(hdr.split()[2]), int(hdr.split()[3])
+        rank = len(scenes_of)
+        scenes_of.append(i)
+        variants = [(5.0, 0, 0), (12.0, 0, 0)]
+        if rank < 3:        # and shifted, for the scenes that differ most
+            variants += [(8.0, 0.5, 0), (8.0, 0, 0.5)]
+        for z, fx, fy in variants:
+            if max(W, H) * z > 200:
+                continue
+            W2, H2 = int(W * z), int(H * z)
+            # zoom, then shift by a fraction of the surface: the statement is invariant under both
+            zx = tuple(v * z for v in xf[:4]) + (xf[4] * z + fx * W2, xf[5] * z + fy * H2)
+            scenes.append("scene %d %d %d I %s ; xf %s ; fill %s solid ffffffff 3 %d 1" % (
+                800000 + len(scenes), W2, H2, " ".join(["00000000"] * (W2 * H2)), scene.xf_tokens(zx),
+                scene.path_tokens(pops, rule), FB(1.0)))
+            meta.append((pops, rule, zx, False))
+    ctx.cov["magnified_scenes_searched"] = len(scenes)
+    if scenes:
+        return bool(eval_scenes(ctx, scenes, meta, what="zoom"))
+    return False
 
 
 def nontrivial(sr, i):
@@ -180,7 +246,7 @@ ASSUME = ["lyon's cubic-to-quadratic conversion is an oracle input of the model"
 def run(ctx):
     if core.prepare(ctx):
         pixel_oracle(ctx)
-    return _scene.run_property(ctx, CFG, 1500, 20000, RULE, concrete, ASSUME, nontrivial=nontrivial)
+    return _scene.run_property(ctx, CFG, 1500, 20000, RULE, concrete, ASSUME, nontrivial=nontrivial, search=search)
 
 
 def replay(ctx, path):
